@@ -1,6 +1,7 @@
 import FqModel.Proto
 import FqModel.JqEnv
 import FqModel.Gen.Overrides
+import FqModel.JsonStr
 /-!
   Driver for C07, run `facts` (harness c07 -facts): the harness derives the override table a second time —
   embedded file systems of the running binary in their real load order, the gojq PARSER, "is a builtin" decided
@@ -16,6 +17,11 @@ import FqModel.Gen.Overrides
     helper <name> TAB ok | …             shape of the guard helpers
     dynamic TAB f1,f2,…                  the dynamic includes
     gofn TAB [..]                        Go-registered fq functions that collide with a builtin (none)
+    esc fq|gojq TAB <ranges>;bad:<k>     what each encoder writes for EVERY one-code-point string (run-length
+                                         encoded: raw | u4 = \\uXXXX | s<c> = short escape) and for invalid bytes:
+                                         DIVERGE if the model table read off that encoder's AST (Gen.Encoder) predicts
+                                         something else, PROPFAIL if fq's line differs from gojq's
+    escpairs TAB ok n | …                all ordered pairs of ~150 units: same text in both encoders, compositional
 
   The differential cases of the other run are decided by the harness itself (`!OK` / `!PROPFAIL` lines).
 -/
@@ -38,6 +44,48 @@ def parseFn (s : String) : Option (String × Nat) :=
   match s.splitOn "/" with
   | [n, a] => a.toNat?.map (fun k => (n, k))
   | _ => none
+
+/-- the model's run-length summary over all code points (surrogates excluded), as the harness writes it -/
+def modelKinds (t : FqModel.Gen.Encoder.Esc) : String := Id.run do
+  let mut out := ""
+  let mut start := 0
+  let mut cur := ""
+  let mut prev := 0
+  let mut have_ := false
+  let flush := fun (out : String) (start prev : Nat) (cur : String) =>
+    let seg := if start == prev then s!"{String.ofList (Nat.toDigits 16 start)}:{cur}"
+               else s!"{String.ofList (Nat.toDigits 16 start)}-{String.ofList (Nat.toDigits 16 prev)}:{cur}"
+    if out == "" then seg else out ++ "," ++ seg
+  for c in [0:0x110000] do
+    if 0xd800 ≤ c && c ≤ 0xdfff then continue
+    let k := FqModel.JsonStr.kindOf t c
+    if !have_ then
+      start := c; cur := k; have_ := true
+    else if k != cur || c != prev + 1 then
+      out := flush out start prev cur
+      start := c; cur := k
+    prev := c
+  out := flush out start prev cur
+  let bad := if t.nonAscii == [("c == utf8.RuneError && size == 1", "\\ufffd")] then "ufffd" else "other"
+  return out ++ ";bad:" ++ bad
+
+structure St where
+  seen : Nat := 0
+  escFq : String := ""
+
+def stepE (st : St) (op obs : String) : St × String :=
+  match words op with
+  | ["esc", "fq"] =>
+    ({ st with escFq := obs }, verdict (modelKinds FqModel.Gen.Encoder.fq) obs)
+  | ["esc", "gojq"] =>
+    let corr := verdict (modelKinds FqModel.Gen.Encoder.gojq) obs
+    if st.escFq != obs then
+      (st, s!"PROPFAIL fq's JSON encoder escapes strings differently from the reference: fq {st.escFq} reference {obs}"
+        ++ (if corr == "OK" then "" else " ;" ++ corr))
+    else (st, corr)
+  | ["escpairs"] =>
+    if obs.startsWith "ok " then (st, "OK") else (st, s!"PROPFAIL {obs}")
+  | _ => (st, "")
 
 def step (seen : Nat) (op obs : String) : Nat × String :=
   match words op with
@@ -81,4 +129,11 @@ def step (seen : Nat) (op obs : String) : Nat × String :=
     else (seen, s!"DIVERGE model=[] (a Go-registered function has the name/arity of a builtin: {obs})")
   | _ => (seen, "BADOP unknown op")
 
-def main : IO Unit := runSt 0 step
+def stepAll (st : St) (op obs : String) : St × String :=
+  let (st', r) := stepE st op obs
+  if r != "" then (st', r)
+  else
+    let (n, r') := step st.seen op obs
+    ({ st with seen := n }, r')
+
+def main : IO Unit := runSt ({} : St) stepAll
